@@ -1,20 +1,25 @@
 (* C11 correspondence evaluator: runs the model on the cases the harness produced on the real code and reports, per case,
-   (a) codes of variant-independent disagreements (row evaluation, routing, hash, created group span, groups selected by
-       the time range) and
-   (b) a bit mask saying which of the 8 model variants (v_or, v_and, v_reset) reproduce the implementation's
-       getConditionTags output and the set of shards TargetShards returned for every selected group. *)
+   (a) codes of variant-independent disagreements (1 row evaluation, 3 hash function, 4 span of a created group,
+       5 groups selected by the time range) and
+   (b) a bit mask over the 32 model variants (use_cache, per_group_key, v_or, v_and, v_reset) saying which of them
+       reproduce the implementation: the shard every row of every write batch was mapped to (batch_step with the group /
+       measurement / shard-key caches), getConditionTags' output (as a set of tag sets) and the SET of shards
+       TargetShards returned for every selected group. *)
 From Coq Require Import ZArith NArith List Bool.
 From OG Require Import C11.Model.
 Import ListNotations.
 
 Record cpoint := {
+  cp_m : nat;                            (* measurement index *)
+  cp_newbatch : bool;                    (* first row of a write batch (fresh ingestion context) *)
+  cp_conflict : bool;                    (* the row's only field has the wrong type: dropped by the schema check *)
   cp_tags : tagset; cp_time : Z; cp_leaf : list bool; cp_sat : bool;
-  cp_fresh : bool;                       (* routed through a fresh ingestion context (no cached group) *)
-  cp_routed : option (N * N);            (* (group id, shard id) the implementation routed the point to *)
+  cp_routed : option (N * N);            (* (group id, shard id) the implementation mapped the row to *)
   cp_hash : option (str * N)             (* bytes the implementation hashed and HashID of them *)
 }.
 Record ccase := {
-  cc_cfg : cfg;                          (* groups: the catalogue after all writes *)
+  cc_msts : list mcfg;                   (* every m_cfg carries the catalogue after all writes in c_groups *)
+  cc_qm : nat;                           (* measurement the query reads *)
   cc_born : list Z;                      (* per group: index of the point whose routing created it, -1 = pre-existing *)
   cc_cond : option expr;
   cc_points : list cpoint;
@@ -23,6 +28,12 @@ Record ccase := {
   cc_qgroups : list N;
   cc_targets : list (N * list N)
 }.
+
+Definition dummy_cfg : cfg :=
+  {| c_mst := []; c_tagkeys := []; c_sk := []; c_typ := Hash; c_dur := 1%Z; c_groups := []; c_mstidx := None |}.
+Definition dummy_m : mcfg := {| m_cfg := dummy_cfg; m_vers := [] |}.
+Definition mst_of (c : ccase) (i : nat) : mcfg := nth i (cc_msts c) dummy_m.
+Definition qmst (c : ccase) : mcfg := mst_of c (cc_qm c).
 
 Definition to_point (cp : cpoint) : point :=
   {| p_tags := cp_tags cp; p_time := cp_time cp; p_leaf := fun i => nth (N.to_nat i) (cp_leaf cp) false |}.
@@ -39,19 +50,25 @@ Definition seteq_b {A} (eqb : A -> A -> bool) (a b : list A) : bool := incl_b eq
 
 Open Scope Z_scope.
 
-Definition with_born (c : ccase) : list (group * Z) := combine (c_groups (cc_cfg c)) (cc_born c).
+Definition all_groups (c : ccase) : list group := c_groups (m_cfg (qmst c)).
+Definition with_born (c : ccase) : list (group * Z) := combine (all_groups c) (cc_born c).
 
-(* group the model writes point i into: an older group that accepts t, else the group created for it, whose span must
-   be [trunc(t,d), +d) clipped; the flag reports a span disagreement *)
-Definition model_group (c : ccase) (cache : option group) (i : Z) (t : Z) : option group * bool :=
+Definition with_groups (m : mcfg) (gs : list group) : mcfg :=
+  {| m_cfg := {| c_mst := c_mst (m_cfg m); c_tagkeys := c_tagkeys (m_cfg m); c_sk := c_sk (m_cfg m); c_typ := c_typ (m_cfg m);
+                 c_dur := c_dur (m_cfg m); c_groups := gs; c_mstidx := c_mstidx (m_cfg m) |};
+     m_vers := m_vers m |}.
+
+(* catalogue seen by the routing of point i: the groups that existed before, plus - when none of them (nor the cached
+   one) takes the timestamp - the group created for this point, whose span must be [trunc(t,d), +d) clipped *)
+Definition visible_groups (c : ccase) (cache : option group) (i : Z) (t : Z) : list group * bool :=
   let before := map fst (filter (fun gb => snd gb <? i) (with_born c)) in
   match pick_group cache before t with
-  | Some g => (Some g, true)
+  | Some _ => (before, true)
   | None => match find (fun gb => snd gb =? i) (with_born c) with
             | Some (g, _) =>
-                let sp := span_of t (c_dur (cc_cfg c)) in
-                (Some g, (g_start g =? fst sp) && (g_end g =? snd sp) && negb (g_deleted g))
-            | None => (None, true)
+                let sp := span_of t (c_dur (m_cfg (qmst c))) in
+                (before ++ [g], (g_start g =? fst sp) && (g_end g =? snd sp) && negb (g_deleted g))
+            | None => (before, true)
             end
   end.
 
@@ -62,75 +79,86 @@ Definition opt_pair_eqb (a b : option (N * N)) : bool :=
   | _, _ => false
   end.
 
-Definition point_codes (c : ccase) (mg : option group * bool) (cp : cpoint) : list N :=
-  let cf := cc_cfg c in
-  let p := to_point cp in
-  let routed := match fst mg with
-                | Some g => match route_in xxh64 cf g p with Some s => Some (g_id g, s_id s) | None => None end
-                | None => None
-                end in
-  (if Bool.eqb (eval_cond cf (cc_cond c) p) (cp_sat cp) then [] else [1%N])
-  ++ (if opt_pair_eqb routed (cp_routed cp) then [] else [2%N])
-  ++ (match cp_hash cp with
-      | None => []
-      | Some (k, h) =>
-          if N.eqb (xxh64 k) h && match wkey cf p with Some ps => str_eqb (hash_arg cf ps) k | None => false end
-          then [] else [3%N]
-      end)
-  ++ (if snd mg then [] else [4%N]).
+(* the harness' retention policy is unlimited: rows before 1970 are outside the window (ctx.minTime = 0) *)
+Definition row_kind (cp : cpoint) : rowkind :=
+  if cp_time cp <? 0 then RSkip else if cp_conflict cp || has_adj_dup (cp_tags cp) then RDrop else RRoute.
 
-(* the shared ingestion context remembers the group of its previous row; fresh contexts start empty and are dropped *)
-Fixpoint points_codes (c : ccase) (cache : option group) (i : Z) (cps : list cpoint) : list N :=
+(* the write batches under one reading of the shard-key cache: true iff every row was mapped as the implementation did;
+   the second component collects span disagreements of created groups *)
+Fixpoint batches_ok (use_cache : bool) (c : ccase) (st : bstate) (i : Z) (cps : list cpoint) : bool * bool :=
   match cps with
-  | [] => []
+  | [] => (true, true)
   | cp :: r =>
-      let mg := model_group c (if cp_fresh cp then None else cache) i (cp_time cp) in
-      let cache' := if cp_fresh cp then cache else match fst mg with Some g => Some g | None => cache end in
-      point_codes c mg cp ++ points_codes c cache' (i + 1) r
+      let st0 := if cp_newbatch cp then b_empty else st in
+      let kind := row_kind cp in
+      let vg := match kind with
+                | RRoute => visible_groups c (b_sg st0) i (cp_time cp)
+                | _ => (@nil group, true)
+                end in
+      let row := {| r_m := with_groups (mst_of c (cp_m cp)) (fst vg); r_kind := kind; r_p := to_point cp |} in
+      let x := batch_step xxh64 use_cache st0 row in
+      let got := match snd x with Some gs => Some (g_id (fst gs), s_id (snd gs)) | None => None end in
+      let rest := batches_ok use_cache c (fst x) (i + 1) r in
+      (opt_pair_eqb got (cp_routed cp) && fst rest, snd vg && snd rest)
   end.
 
-Definition variants : list variant :=
-  [ {| v_or := false; v_and := false; v_reset := false |}; {| v_or := false; v_and := false; v_reset := true |};
-    {| v_or := false; v_and := true;  v_reset := false |}; {| v_or := false; v_and := true;  v_reset := true |};
-    {| v_or := true;  v_and := false; v_reset := false |}; {| v_or := true;  v_and := false; v_reset := true |};
-    {| v_or := true;  v_and := true;  v_reset := false |}; {| v_or := true;  v_and := true;  v_reset := true |} ].
+Definition point_codes (c : ccase) (cp : cpoint) : list N :=
+  let p := to_point cp in
+  (if Bool.eqb (eval_cond (m_cfg (mst_of c (cp_m cp))) (cc_cond c) p) (cp_sat cp) then [] else [1%N])
+  ++ (match cp_hash cp with
+      | None => []
+      | Some (k, h) => if N.eqb (xxh64 k) h then [] else [3%N]
+      end).
 
 Definition condtags_ok (v : variant) (c : ccase) : bool :=
   match cc_cond c with
   | None => true
   | Some e =>
-      match cond_tags v (c_tagkeys (cc_cfg c)) e, cc_condtags c with
+      match cond_tags v (c_tagkeys (m_cfg (qmst c))) e, cc_condtags c with
       | None, None => true
       | Some a, Some b => seteq_b (list_eqb pair_eqb) a b
       | _, _ => false
       end
   end.
 
-Definition targets_ok (v : variant) (c : ccase) : bool :=
+Definition targets_ok (v : variant) (per_group_key : bool) (c : ccase) : bool :=
+  let m := qmst c in
+  let qs := query_groups (m_cfg m) (cc_tmin c) (cc_tmax c) in
   forallb (fun g =>
+             let gid := if per_group_key then g_id g else match qs with g0 :: _ => g_id g0 | [] => g_id g end in
              match find (fun x => N.eqb (fst x) (g_id g)) (cc_targets c) with
-             | Some (_, ids) => seteq_b N.eqb (map s_id (target_group xxh64 v (cc_cfg c) g (cc_cond c))) ids
+             | Some (_, ids) => seteq_b N.eqb (map s_id (target_group xxh64 v (cfg_at m gid) g (cc_cond c))) ids
              | None => false
-             end)
-          (query_groups (cc_cfg c) (cc_tmin c) (cc_tmax c)).
+             end) qs.
 
-Fixpoint mask_of (vs : list variant) (bit : N) (c : ccase) : N :=
-  match vs with
-  | [] => 0%N
-  | v :: r => ((if condtags_ok v c && targets_ok v c then bit else 0) + mask_of r (2 * bit) c)%N
-  end.
+(* bit index = 16*use_cache_repaired + 8*per_group_key + 4*v_or + 2*v_and + v_reset  (use_cache_repaired = the shard key is
+   looked up for every row) *)
+Definition mask_of (c : ccase) : N :=
+  let w_cur := fst (batches_ok true c b_empty 0 (cc_points c)) in
+  let w_rep := fst (batches_ok false c b_empty 0 (cc_points c)) in
+  fold_left N.add
+    (flat_map (fun cf : bool => flat_map (fun pk : bool => flat_map (fun vo : bool => flat_map (fun va : bool => map (fun vr : bool =>
+       let v := {| v_or := vo; v_and := va; v_reset := vr |} in
+       let okw := if cf then w_rep else w_cur in
+       if okw && condtags_ok v c && targets_ok v pk c
+       then N.shiftl 1%N ((if cf then 16 else 0) + (if pk then 8 else 0) + (if vo then 4 else 0) + (if va then 2 else 0) + (if vr then 1 else 0))%N
+       else 0%N) [false; true]) [false; true]) [false; true]) [false; true]) [false; true])
+    0%N.
+
+Definition full_mask : N := 4294967295%N.
 
 Definition check_case (c : ccase) : list N * N :=
-  (points_codes c None 0 (cc_points c)
-   ++ (if list_eqb N.eqb (map g_id (query_groups (cc_cfg c) (cc_tmin c) (cc_tmax c))) (cc_qgroups c) then [] else [5%N]),
-   mask_of variants 1%N c).
+  (flat_map (point_codes c) (cc_points c)
+   ++ (if snd (batches_ok false c b_empty 0 (cc_points c)) then [] else [4%N])
+   ++ (if list_eqb N.eqb (map g_id (query_groups (m_cfg (qmst c)) (cc_tmin c) (cc_tmax c))) (cc_qgroups c) then [] else [5%N]),
+   mask_of c).
 
 Fixpoint mismatches_from (k : N) (cs : list ccase) : list (N * list N * N) :=
   match cs with
   | [] => []
   | c :: r =>
       let '(codes, m) := check_case c in
-      match codes, N.eqb m 255 with
+      match codes, N.eqb m full_mask with
       | [], true => mismatches_from (k + 1)%N r
       | _, _ => (k, codes, m) :: mismatches_from (k + 1)%N r
       end
